@@ -314,7 +314,11 @@ func c6WherePred(a *c6Node, rows []Row, r *rand.Rand) *c6Node {
 			break
 		}
 	}
-	return &c6Node{K: c6Cmp, T: 'B', Op: "=", Args: []*c6Node{a, {K: c6Str, T: 'S', S: lit}}}
+	op := "="
+	if r != nil {
+		op = pick(r, []string{"=", "=", "<=", ">=", "<", "!="}) // the literal equals some row's text: the boundary of every ordering
+	}
+	return &c6Node{K: c6Cmp, T: 'B', Op: op, Args: []*c6Node{a, {K: c6Str, T: 'S', S: lit}}}
 }
 
 // ---- the expr stream -----------------------------------------------------------------------------------
@@ -634,7 +638,18 @@ func c6ExpectWhere(pred, a *c6Node, bare c6Out) (string, bool) {
 			return acc(false)
 		}
 		if s, ok := v.(string); ok {
-			return acc(s == pred.Args[1].S)
+			switch c := strings.Compare(s, pred.Args[1].S); pred.Op {
+			case "=":
+				return acc(c == 0)
+			case "!=":
+				return acc(c != 0)
+			case "<=":
+				return acc(c <= 0)
+			case ">=":
+				return acc(c >= 0)
+			case "<":
+				return acc(c < 0)
+			}
 		}
 	}
 	return "", false
